@@ -5,8 +5,8 @@
    [n] stale key-values ([mv]: the SetMaxVersion op fitted) — DeltaRefine.v ties it to the
    MTU-bounded loop of Cluster.v.  All statements are for ALL copies, watermarks (including
    watermark above max version), keys, statuses and truncation points. *)
-From ChitchatModel Require Import Base SMap Ids Bytes NodeState DeltaWire Message Cluster
-  NodeState_lemmas Agreement.
+From ChitchatModel Require Import Base SMap Ids Bytes Params NodeState Stream DeltaWire Message Cluster
+  FD Chitchat NodeState_lemmas Agreement Inv DeltaRefine Compute_lemmas Prefix_lemmas.
 
 (* never refused as inapplicable or from the future; reset exactly when both the receiver's max
    version and watermark lie below the sender's watermark, and then from version 0; the only
@@ -43,6 +43,26 @@ Proof.
   - apply N.leb_gt in H. split; [auto|intros _; eexists; reflexivity].
 Qed.
 Print Assumptions C14_offer_iff_ahead.
+
+(* Tie to the code path: every node delta of a delta computed by the MTU-bounded loop
+   (Cluster.delta_loop, any budget, compressor and shuffle outcome) for a stale candidate [n] is
+   [mk_node_delta] of the sender's copy and the receiver's digest entry (absent entry = (0,0)),
+   for the number [j] of key-values that fitted. *)
+Theorem C14_loop_produces_mk_node_delta : forall cs dg sched mtu x,
+  cluster_inv cs -> delta_shape cs dg sched mtu x ->
+  forall nd, In nd (nds x) ->
+    exists n j mv dgc dmax,
+      In n (stale_nodes cs dg sched) /\
+      (match dg_get (sn_id n) dg with Some g => (g_gc g, g_max g) | None => (0, 0) end) = (dgc, dmax) /\
+      nm_get (sn_id n) (cs_nodes cs) = Some (sn_copy n) /\
+      mk_node_delta (sn_id n) (sn_copy n) dgc dmax j mv = Some nd.
+Proof.
+  intros cs dg sched mtu x Hinv Hsh nd Hin.
+  destruct (computed_delta_nodes cs dg sched mtu x Hinv Hsh nd Hin) as (n & j & mv & Hn & -> & _ & Hget & _).
+  destruct (node_piece_is_mk_node_delta cs dg sched n j mv Hn) as (dgc & dmax & Hd & Hmk).
+  exists n, j, mv, dgc, dmax. auto.
+Qed.
+Print Assumptions C14_loop_produces_mk_node_delta.
 
 (* non-vacuity: a concrete sender/receiver pair in the reset case, watermark above max version *)
 Example C14_nonvacuous :
